@@ -39,6 +39,7 @@ CONSTANTS Keys,        \* key ids
           ResetAt,     \* tinyLFU.resetAt (= NumCounters in the code)
           InitVals,    \* counter values the table may start from (0 = fresh; 13 reaches saturation)
           Mode,        \* "lfu": tinyLFU.Increment/Push/reset/clear;  "sketch": bare cmSketch
+          PushSeqs,    \* the key sequences tinyLFU.Push is called with (a set of sequences over Keys)
           MaxOps       \* bound on behaviour length (model checking only)
 
 Shr(x, s) == IF s >= 31 THEN 0 ELSE x \div (2 ^ s)   \* logical shift right (operands are below 2^31 here)
@@ -161,9 +162,8 @@ SketchInc(k) == /\ Mode = "sketch" /\ ops < MaxOps
                               cnt |-> [cnt EXCEPT ![k] = @ + 1], reset |-> FALSE]
                    IN  Apply(st, "SketchInc", <<k>>)
 
-Pairs == {<<a, b>> : a \in Keys, b \in Keys}
 Next == \/ \E k \in Keys : Inc(k) \/ SketchInc(k)
-        \/ \E ks \in Pairs : Push(ks)
+        \/ \E ks \in PushSeqs : Push(ks)
         \/ Reset \/ Clear
 Spec == Init /\ [][Next]_vars
 
@@ -171,8 +171,9 @@ Spec == Init /\ [][Next]_vars
 TypeOK == /\ \A i \in RowIds : \A j \in DOMAIN rows[i] : rows[i][j] \in 0..255
           /\ door \subseteq Keys /\ incrs \in 0..(ResetAt - 1)
 \* between two resets: at least min(n, 15) after n recorded accesses, never more than 16
-EstLower == \A k \in Keys : Estimate(k) >= Min(cnt[k], 15)
-EstUpper == \A k \in Keys : Estimate(k) <= (IF Mode = "lfu" THEN 16 ELSE 15)
+EstBounds == \A k \in Keys : LET e == Estimate(k) IN
+                               /\ e >= Min(cnt[k], 15)
+                               /\ e <= (IF Mode = "lfu" THEN 16 ELSE 15)
 \* recording an access (that does not perform the aging reset) never lowers any key's estimate
 Monotone == [][(last'.op \in {"Inc", "Push", "SketchInc"} /\ ~last'.reset) =>
                  \A k \in Keys : Est(rows', door', k) >= Estimate(k)]_vars
